@@ -24,6 +24,7 @@ import (
 	"encoding/binary"
 	"fmt"
 	"math/rand"
+	"runtime"
 	"strings"
 	"time"
 
@@ -103,16 +104,151 @@ func descTrieBytes(data []byte) (s string) {
 	return strings.Join(parts, "/")
 }
 
-func timed(i int, x *CaseResult, what string, f func() string) string {
+// promptBound: a decode has to finish within max(50 ms, 1 s per 100 kB of input)
+func promptBound(inputLen int) time.Duration {
+	b := time.Duration(inputLen) * time.Second / 100000
+	if b < 50*time.Millisecond {
+		b = 50 * time.Millisecond
+	}
+	return b
+}
+
+const findC15Q = "C15-verifyblockproof-quadratic-in-proof-depth"
+
+// timed runs one decode under guard. Oracles: no panic; an absolute limit of 10 s; and promptness — the wall time, taken as
+// the minimum of two runs when the first one exceeds the bound (machine load), stays within promptBound(inputLen). A case
+// with a promptness failure is run again alone by the harness before it counts (main.go).
+func timed(i int, x *CaseResult, what string, inputLen int, f func() string) string {
 	start := time.Now()
 	out := guard(f)
-	if d := time.Since(start); d > 10*time.Second {
+	d := time.Since(start)
+	if d > 10*time.Second {
 		x.Fails = append(x.Fails, fmt.Sprintf("op %d: %s took %s", i, what, d))
+	} else if bound := promptBound(inputLen); d > bound {
+		start = time.Now()
+		guard(f)
+		if d2 := time.Since(start); d2 < d {
+			d = d2
+		}
+		if d > bound {
+			x.Fails = append(x.Fails, fmt.Sprintf("op %d: %s did not terminate promptly: %s for %d bytes of input (bound %s)", i, what, d.Round(time.Millisecond), inputLen, bound))
+		}
 	}
 	if out == "panic" {
 		x.Fails = append(x.Fails, fmt.Sprintf("op %d: %s panicked", i, what))
 	}
 	return out
+}
+
+// panicSite: the innermost function of core/util/wmpt on the stack of the panic being recovered
+func panicSite() string {
+	pcs := make([]uintptr, 40)
+	n := runtime.Callers(3, pcs)
+	frames := runtime.CallersFrames(pcs[:n])
+	for {
+		fr, more := frames.Next()
+		if strings.Contains(fr.File, "/util/wmpt/") {
+			return fr.Function[strings.LastIndex(fr.Function, "/")+1:]
+		}
+		if !more {
+			return "?"
+		}
+	}
+}
+
+// knownFollowUpPanic: what the code at HEAD does NOT satisfy (reported, left to the maintainers; notes/C15wmpt.md): a trie
+// loaded from an accepted input can make three later calls panic. They are matched by the function that panics and
+// recorded as observations; a panic anywhere else is a failure.
+func knownFollowUpPanic(site, msg string) string {
+	switch {
+	case strings.HasSuffix(site, "wmpt.decodeNibbles") && strings.Contains(msg, "index out of range"):
+		// GetBlockProof converts the nibble path to key bytes without checking that its length is even (short-node keys of
+		// any length are accepted)
+		return "obs:GetBlockProof-panics-on-a-path-of-odd-length"
+	case strings.HasSuffix(site, ".insert") && strings.Contains(msg, "index out of range"):
+		// Update splits a short node whose key holds a byte that is not a nibble (>= 16): it indexes the 16 children with it
+		return "obs:Update-panics-splitting-a-short-node-whose-key-is-not-made-of-nibbles"
+	case strings.HasSuffix(site, ".GetPath") && strings.Contains(msg, "nil pointer"):
+		// GetPath loads a reference root through t.db without checking that a storage is set (an export of zero keys is
+		// one reference: its import is such a trie)
+		return "obs:GetPath-dereferences-the-missing-storage-when-the-root-is-a-reference"
+	case strings.Contains(site, "(*shortNode).") && strings.Contains(msg, "nil pointer"):
+		// Delete of a key that runs through a value node sitting ABOVE the full key depth (accepted by the importers)
+		// removes that value node and leaves its short node without a child; the next Weight() / export dereferences it
+		return "obs:Delete-leaves-a-short-node-without-child-when-a-value-node-sits-above-the-key-depth"
+	}
+	return ""
+}
+
+// followUps: whatever a decoder ACCEPTED has to be usable: the operations a caller runs next on the loaded trie — proofs
+// for the first and the last block, path exports, an update, deletes, root — must not panic (errors are fine). The
+// results are not part of the op's output (oracle only).
+func followUps(i int, x *CaseResult, obsTags map[string]bool, what string, t *wmpt.WeightedMerkleTrie, input []byte) {
+	h := sha3sum(input)
+	k1 := append([]byte(nil), h...)
+	k3 := bytes.Repeat([]byte{0x11}, 32)
+	var k2 []byte
+	stop := false // after an unexpected panic nothing else is tried (a panic inside GetPath's goroutines cannot be recovered)
+	step := func(name string, f func()) {
+		if stop {
+			return
+		}
+		start := time.Now()
+		var pv interface{}
+		site := ""
+		func() {
+			defer func() {
+				if pv = recover(); pv != nil {
+					site = panicSite()
+				}
+			}()
+			f()
+		}()
+		if pv != nil {
+			if obs := knownFollowUpPanic(site, fmt.Sprint(pv)); obs != "" {
+				obsTags[obs] = true
+			} else {
+				x.Fails = append(x.Fails, fmt.Sprintf("op %d: %s accepted the input, then %s panicked on the loaded trie: %v (in %s)", i, what, name, pv, site))
+				stop = true
+			}
+		}
+		if d := time.Since(start); d > 10*time.Second {
+			x.Fails = append(x.Fails, fmt.Sprintf("op %d: %s accepted the input, then %s took %s", i, what, name, d))
+		}
+	}
+	var w uint64
+	step("Root/Weight", func() { _ = t.Root(); w = t.Weight() })
+	step("GetBlockProof(1)", func() {
+		if key, _, err := t.GetBlockProof(1); err == nil && len(key) == 32 {
+			k2 = key
+		}
+	})
+	if k2 == nil {
+		k2 = bytes.Repeat([]byte{0x22}, 32)
+	}
+	step("GetBlockProof(weight)", func() { _, _, _ = t.GetBlockProof(w) })
+	step("GetPath(1 key)", func() { _, _ = t.GetPath([][]byte{k2}) })
+	step("GetPath(3 keys)", func() { _, _ = t.GetPath([][]byte{k1, k2, k3}) })
+	// sixteen keys, one per first nibble: first each alone, then ten together (sequential strategy), then twelve of
+	// the same keys through the parallel one — a panic inside its goroutines could not be recovered, the sequential walks
+	// of the same keys find it first
+	all := make([][]byte, 16)
+	for j := range all {
+		all[j] = sha3sum(append([]byte{byte(j)}, h...))
+		all[j][0] = byte(j)<<4 | all[j][0]&15
+	}
+	for j := range all {
+		key := all[j]
+		step("GetPath(1 of 16 keys)", func() { _, _ = t.GetPath([][]byte{key}) }) // one by one: a call stops at its first error
+	}
+	step("GetPath(10 keys)", func() { _, _ = t.GetPath(all[:10]) })
+	step("GetPath(12 keys)", func() { _, _ = t.GetPath(all[2:14]) })
+	step("Update", func() { _ = t.Update(append([]byte(nil), k1...), []byte{1, 2, 3}, 3) })
+	step("Update(owner of block 1)", func() { _ = t.Update(append([]byte(nil), k2...), []byte{4, 5}, 2) })
+	step("Delete", func() { _, _ = t.Delete(append([]byte(nil), k2...)) })
+	step("Update(nil)", func() { _ = t.Update(append([]byte(nil), k3...), nil, 0) })
+	step("Root after the changes", func() { _ = t.Root() })
+	step("GetPath after the changes", func() { _, _ = t.GetPath([][]byte{k1, k2}) })
 }
 
 func runC15Wmpt(ops []string) CaseResult {
@@ -127,7 +263,7 @@ func runC15Wmpt(ops []string) CaseResult {
 			if d := descNodeBytes(data); d != f[2] {
 				res.Fails = append(res.Fails, fmt.Sprintf("harness: op %d carries description %q, the CBOR library now yields %q", i, wmClip(f[2], 80), wmClip(d, 80)))
 			}
-			out = timed(i, &res, "DeserializeNode", func() string {
+			out = timed(i, &res, "DeserializeNode", len(data), func() string {
 				n, err := wmpt.DeserializeNode(append([]byte(nil), data...))
 				if err != nil {
 					return "err"
@@ -143,19 +279,26 @@ func runC15Wmpt(ops []string) CaseResult {
 			if d := descTrieBytes(data); d != f[3] {
 				res.Fails = append(res.Fails, fmt.Sprintf("harness: op %d carries description %q, the CBOR library now yields %q", i, wmClip(f[3], 80), wmClip(d, 80)))
 			}
-			out = timed(i, &res, "VerifyBlockProof", func() string {
-				h, v, err := wmpt.New(nil, nil).VerifyBlockProof(u64(f[1]), append([]byte(nil), data...))
+			var loaded *wmpt.WeightedMerkleTrie
+			out = timed(i, &res, "VerifyBlockProof", len(data), func() string {
+				t := wmpt.New(nil, nil)
+				h, v, err := t.VerifyBlockProof(u64(f[1]), append([]byte(nil), data...))
 				if err != nil {
 					return "err"
 				}
+				loaded = t
 				return "ok " + hx(h) + " " + hxOrDash(v)
 			})
+			if loaded != nil && strings.HasPrefix(out, "ok") {
+				followUps(i, &res, tags, "VerifyBlockProof", loaded, data)
+			}
 		case "dtrie":
 			data := unhx(f[1])
 			if d := descTrieBytes(data); d != f[2] {
 				res.Fails = append(res.Fails, fmt.Sprintf("harness: op %d carries description %q, the CBOR library now yields %q", i, wmClip(f[2], 80), wmClip(d, 80)))
 			}
-			out = timed(i, &res, "Deserialize", func() string {
+			var loaded *wmpt.WeightedMerkleTrie
+			out = timed(i, &res, "Deserialize", len(data), func() string {
 				t := wmpt.New(nil, nil)
 				if err := t.Deserialize(append([]byte(nil), data...)); err != nil {
 					return "err"
@@ -164,8 +307,12 @@ func runC15Wmpt(ops []string) CaseResult {
 				if err != nil {
 					return "ok sererr"
 				}
+				loaded = t
 				return fmt.Sprintf("ok %x %d %s", t.Root(), t.Weight(), descNodeBytes(ser))
 			})
+			if loaded != nil && strings.HasPrefix(out, "ok") && loaded.GetRoot() != nil {
+				followUps(i, &res, tags, "Deserialize", loaded, data)
+			}
 		default:
 			panic("unknown op " + op)
 		}
@@ -356,6 +503,92 @@ func structuralNodes(r *rand.Rand, idx int) [][]byte {
 	return out
 }
 
+// ---- crafted, hash-consistent structures the trie's own operations never build --------------------------------
+//
+// Deserialize checks an export through the hashes claimed inside the pairs and recomputes the root's: anything built
+// with the right hash formulas is accepted, whatever its shape. cval / cshort / cbranch return the pairs of a subtree in
+// export order (pre-order), its hash and its weight.
+
+type csub struct {
+	pairs [][]byte
+	hash  []byte
+	w     uint64
+}
+
+func cval(val []byte, w uint64) csub {
+	h := sha3sum(append(be64(w), val...))
+	return csub{[][]byte{marshalBase(&wmpt.PersistNodeBase{Value: &wmpt.PersistNodeValue{Value: val, Hash: h, Weight: w}})}, h, w}
+}
+
+func cshort(key []byte, c csub) csub {
+	h := sha3sum(append(append([]byte(nil), key...), c.hash...))
+	p := marshalBase(&wmpt.PersistNodeBase{Short: &wmpt.PersistNodeShort{Key: key, Hash: h, Value: append(append([]byte(nil), c.hash...), be64(c.w)...)}})
+	return csub{append([][]byte{p}, c.pairs...), h, c.w}
+}
+
+func cbranch(kids map[int]csub) csub {
+	ch := make([][]byte, 16)
+	var total uint64
+	var body []byte
+	var pairs [][]byte
+	for i := 0; i < 16; i++ {
+		k, ok := kids[i]
+		if !ok {
+			body = append(body, emptyHashW...)
+			continue
+		}
+		ch[i] = append(append([]byte(nil), k.hash...), be64(k.w)...)
+		total += k.w
+		body = append(body, k.hash...)
+		pairs = append(pairs, k.pairs...)
+	}
+	h := sha3sum(append(be64(total), body...))
+	p := marshalBase(&wmpt.PersistNodeBase{Branch: &wmpt.PersistNodeBranch{Hash: h, Children: ch}})
+	return csub{append([][]byte{p}, pairs...), h, total}
+}
+
+// cchain: `depth` single-child nodes above a value node: branches (kind 0), one-nibble short nodes (kind 1) or both
+// alternating (kind 2) — some 80 bytes per level, hash-consistent
+func cchain(r *rand.Rand, depth, kind int) csub {
+	c := cval([]byte{0xc0, byte(depth), byte(kind)}, 1+uint64(r.Intn(5)))
+	for d := 0; d < depth; d++ {
+		if kind == 0 || kind == 2 && d%2 == 0 {
+			c = cbranch(map[int]csub{r.Intn(16): c})
+		} else {
+			c = cshort([]byte{byte(r.Intn(16))}, c)
+		}
+	}
+	return c
+}
+
+// craftedExports: hash-consistent exports of shapes the trie's own operations never build — short-node keys of every
+// length around and beyond the 64 nibbles of a key (1, 2, 63, 64, 65, 70, 200), value nodes above the full depth, keys
+// holding bytes that are not nibbles, short nodes under short nodes, small single-child chains. The importers accept
+// them (they check hashes, not shapes); whatever runs next on the loaded trie must cope.
+func craftedExports(r *rand.Rand, idx int) []csub {
+	nibs := func(n int) []byte {
+		k := make([]byte, n)
+		for j := range k {
+			k[j] = byte(r.Intn(16))
+		}
+		return k
+	}
+	ls := []int{1, 2, 63, 64, 65, 70, 200}
+	l := ls[idx%len(ls)]
+	v := func() csub { return cval(randBytes(r, 1+r.Intn(4)), 1+uint64(r.Intn(4))) }
+	out := []csub{
+		cshort(nibs(l), v()),
+		cshort(nibs(ls[r.Intn(len(ls))]), cshort(nibs(1+r.Intn(3)), v())),
+		cbranch(map[int]csub{r.Intn(8): cshort(nibs(l), v()), 8 + r.Intn(8): v()}),
+		cshort(nibs(2), cbranch(map[int]csub{3: v(), 9: cshort(nibs(l-1), v())})),
+		cchain(r, 3+r.Intn(12), idx%3), // (deep ones: suite c15deep; the model re-hashes quadratically)
+	}
+	bad := nibs(l)
+	bad[r.Intn(len(bad))] = byte(16 + r.Intn(240))
+	out = append(out, cshort(bad, v()))
+	return out
+}
+
 func marshalPairs(vals [][]byte, nilAt int) []byte {
 	pt := &wmpt.PersistTrie{}
 	for i, v := range vals {
@@ -537,6 +770,12 @@ func genC15Wmpt(r *rand.Rand, tier string, idx int) []string {
 		for _, m := range structuralNodes(r, idx/4) {
 			dnode(m)
 		}
+		// hash-consistent exports of shapes the trie never builds: accepted by the importers
+		for _, c := range craftedExports(r, idx/4) {
+			b := marshalPairs(c.pairs, -1)
+			dtrie(b)
+			vproof(1+uint64(r.Intn(int(c.w))), b)
+		}
 		// the same structures as elements of proofs and exports
 		sn := structuralNodes(r, idx/4)
 		vals := pairValues(proof)
@@ -633,7 +872,7 @@ func genC15Wmpt(r *rand.Rand, tier string, idx int) []string {
 func init() {
 	register(&Suite{
 		Name:        "c15wmpt",
-		Rule:        "malformed-input stream for wmpt.DeserializeNode / Deserialize / VerifyBlockProof: real node, proof and export encodings of generated tries and their corruptions (every truncation, CBOR head inflation/deflation, indefinite and huge lengths, type-key changes, byte changes/insertions/deletions), valid CBOR with arbitrary fields (child entries of every length 0..81, 0..100 children, short value fields of every length, overflowing weights, several kinds in one map), null pairs at every position, elements of other kinds spliced into proofs and exports, every pair replaced by a well-formed node of each other kind that carries the hash and weight its parent expects; every 100th case: proofs and exports of maximal depth (comb-shaped tries: a branch at every nibble depth, up to 65 elements) and their corruptions; non-trivial = every case",
+		Rule:        "malformed-input stream for wmpt.DeserializeNode / Deserialize / VerifyBlockProof: real node, proof and export encodings of generated tries and their corruptions (every truncation, CBOR head inflation/deflation, indefinite and huge lengths, type-key changes, byte changes/insertions/deletions), valid CBOR with arbitrary fields (child entries of every length 0..81, 0..100 children, short value fields of every length, overflowing weights, several kinds in one map), null pairs at every position, elements of other kinds spliced into proofs and exports, every pair replaced by a well-formed node of each other kind that carries the hash and weight its parent expects; hash-consistent exports of shapes the trie never builds (short keys of 1..200 nibbles, values above the key depth, non-nibble key bytes, short under short, single-child chains) — for every input a decoder ACCEPTS the follow-up operations on the loaded trie (proofs of the first / last block, path exports of 1 / 3 / 12 keys, updates, deletes, root) must not panic, and every decode must terminate promptly (max(50 ms, 1 s per 100 kB)); every 100th case: proofs and exports of maximal depth (comb-shaped tries: a branch at every nibble depth, up to 65 elements) and their corruptions; non-trivial = every case",
 		Gen:         genC15Wmpt,
 		Run:         runC15Wmpt,
 		CaseTimeout: 3 * time.Minute,
